@@ -293,7 +293,7 @@ type c11Bundle struct {
 }
 
 func runC11(e *env) {
-	e.res.Rule = "generated bundles (1-5 templates over 1-3 files, messages in loops, calls, lets and param blocks; text with HTML tags and {lb}/{rb} braces, several placeholders with equal and distinct expressions and colliding base names, {plural} with {case 1}{default}) x 2 data sets; POT by the real xgettext-soy; .po files (identity, reversed, partial with absent entries, partial with untranslated entries) for ja/en/ru (1/2/3 plural forms; thorough: fr, cs) written and read back through robfig/gettext/po and pomsg.Dir; rendered by soyhtml with WithMessages and by soyjs.Write(Options.Messages) in node. Oracle: output = output without a catalogue of the program in which every translated {msg} is replaced by plain Soy code for its translation; identity under n != 1 = the unmodified program; Go = JS wherever they agree without a catalogue. Non-trivial = the bundle has a message with a placeholder or a plural; distinct by sources + data + catalogue."
+	e.res.Rule = "hand-written bundles first (one per defect the check has found, PO corner cases, names outside [A-Z0-9_]+), then generated bundles (1-5 templates over 1-3 files, messages in loops, calls, lets, param blocks and switch branches; text with HTML tags and {lb}/{rb} braces, placeholders with equal and distinct expressions, colliding base names, print directives, {plural} with {case 1}{default}; rarely brace-token text, empty messages, nested / non-PO / empty-case plurals, expressions differing in parentheses only) x 2 data sets; POT by the real xgettext-soy; .po files (identity = msgid copied to msgstr, reversed, partial with absent entries, partial with untranslated entries) for ja/en/ru (1/2/3 plural forms; thorough: fr, cs) written and read back through robfig/gettext/po and pomsg.Dir (a quarter of the lookups through a regional locale); rendered by soyhtml with WithMessages and by soyjs.Write(Options.Messages) in node. Oracle: output = output without a catalogue of the program in which every translated {msg} is replaced by plain Soy code for its translation; identity under n != 1 = the unmodified program; the same inside JavaScript; Go = JS wherever they agree on the catalogue-free equivalent. Model: soymsg.Parts (all strings <= 6 over { } A _ a, the msgstrs, random), Validate/Msgid/MsgidPlural per message, rendered bytes per (catalogue, data). Non-trivial = the bundle has a message with a placeholder or a plural; distinct by sources + data + catalogue."
 	if e.replay != "" {
 		c11RunReplay(e)
 		return
